@@ -435,7 +435,9 @@ impl PushPromise {
             src.advance(1);
         }
 
-        if src.len() < 5 {
+        // Only the promised stream ID is mandatory. The header block fragment
+        // may be empty when the whole block travels in CONTINUATION frames.
+        if src.len() < 4 {
             return Err(Error::MalformedMessage);
         }
 
